@@ -36,7 +36,11 @@ func init() {
 				Old: "\tcase ast.NodeKindEnumTypeDefinition:\n\t\tif jsonValue.Type() != astjson.TypeString {\n\t\t\tv.renderVariableInvalidNestedTypeError(jsonValue, fieldTypeDefinitionNode.Kind, typeName, false)\n\t\t\treturn\n\t\t}\n\t\tvalue := jsonValue.GetStringBytes()",
 				New: "\tcase ast.NodeKindUnionTypeDefinition:\n\t\tif jsonValue.Type() != astjson.TypeString {\n\t\t\tv.renderVariableInvalidNestedTypeError(jsonValue, fieldTypeDefinitionNode.Kind, typeName, false)\n\t\t\treturn\n\t\t}\n\t\tvalue := jsonValue.GetStringBytes()"},
 			{Name: "variables validated only when a remap exists", File: execEngineGo, Rule: "C06-R3", Key: "vars-ok",
-				Old: "\tif len(operation.Variables) > 0 && operation.Variables[0] == '{' {\n\t\tvalidator :=", New: "\tif len(operation.Variables) > 0 && operation.Variables[0] == '{' && remapVariables != nil {\n\t\tvalidator :="},
+				Old: "\tif err := validator.ValidateWithRemap(operation.Document(), e.config.schema.Document(), variables, remapVariables); err != nil {\n\t\treturn err\n\t}\n",
+				New: "\tif remapVariables != nil {\n\t\tif err := validator.ValidateWithRemap(operation.Document(), e.config.schema.Document(), variables, remapVariables); err != nil {\n\t\t\treturn err\n\t\t}\n\t}\n"},
+			{Name: "variables validated only when the raw bytes start with '{' (reverts the F28 fix)", File: execEngineGo, Rule: "C06-R3", Key: "vars-ok",
+				Old: "\tif err := validator.ValidateWithRemap(operation.Document(), e.config.schema.Document(), variables, remapVariables); err != nil {\n\t\treturn err\n\t}\n",
+				New: "\tif len(operation.Variables) > 0 && operation.Variables[0] == '{' {\n\t\tif err := validator.ValidateWithRemap(operation.Document(), e.config.schema.Document(), variables, remapVariables); err != nil {\n\t\t\treturn err\n\t\t}\n\t}\n"},
 			{Name: "validator error slot not reset between requests", File: varsValGo, Rule: "C06-R4", Key: "err-reset-before-walk",
 				Old: "\tv.visitor.variables, v.visitor.err = astjson.ParseBytes(variables)\n\tif v.visitor.err != nil {\n\t\treturn v.visitor.err\n\t}\n", New: "\tparsed, perr := astjson.ParseBytes(variables)\n\tif perr != nil {\n\t\treturn perr\n\t}\n\tv.visitor.variables = parsed\n"},
 			{Name: "null list items skipped before descending", File: varsValGo, Rule: "C06-R5", Key: "traverseFieldDefinitionType",
